@@ -448,10 +448,7 @@ func (w *World) finish() {
 func (w *World) afterOp(op *Op) {
 	// C08 write monitor (always on; reported only when C08 is judged)
 	for _, d := range w.disks {
-		if len(d.MonViol) > 0 {
-			mv := d.MonViol[0]
-			d.MonViol = nil
-			w.failFor("C08", mv.Clause, "%s", mv.Detail)
+		if w.monitorTripped(d) {
 			return
 		}
 	}
@@ -1312,10 +1309,7 @@ func (w *World) opPersist(op *Op) {
 	w.log.Str(strings.Join(fr.order, ","))
 	// the write monitor is consulted before anything is read back: bytes stored under a name
 	// that is not their hash are not fed to the decoder
-	if len(d.MonViol) > 0 {
-		mv := d.MonViol[0]
-		d.MonViol = nil
-		w.failFor("C08", mv.Clause, "%s", mv.Detail)
+	if w.monitorTripped(d) {
 		return
 	}
 	if fr.deadlock {
